@@ -917,7 +917,8 @@ class Replace(Mutation):
                 if len(subset) < len(problem.types[index].elements):
                     i = random.randrange(len(subset))
 
-                    nonmembers = list(set(problem.types[index].elements) - set(subset))
+                    members = set(subset)
+                    nonmembers = [e for e in problem.types[index].elements if e not in members]
                     j = random.randrange(len(nonmembers))
                     subset[i] = nonmembers[j]
                     result.evaluated = False
